@@ -132,7 +132,9 @@ def run(tier):
         # theory flag IC=0 (no intrinsic charm in the PDF fit) must not change which kernels exist on
         # either side; one NNLO photon-exchange case on a small grid (the light-quark initiated
         # heavy-quark loops first appear at a_s^2)
-        extra = [("EM", "F2", "charm", "electron", dict(ic=0, x=0.1)), ("CC", "F3", "charm", "neutrino", dict(ic=0, x=0.1)), ("EM", "F2", "light", "electron", dict(pto=2, small_grid=True, x=0.1)), ("NC", "F2", "light", "electron", dict(pto=2, small_grid=True, x=0.3))]
+        extra = [("EM", "F2", "charm", "electron", dict(ic=0, x=0.1)), ("CC", "F3", "charm", "neutrino", dict(ic=0, x=0.1)), ("EM", "F2", "light", "electron", dict(pto=2, small_grid=True, x=0.1)), ("NC", "F2", "light", "electron", dict(pto=2, small_grid=True, x=0.3)),
+                 # the a_s^2 massive coefficients with the axial coupling exist only with Z exchange (NC), FL has its own set
+                 ("NC", "FL", "charm", "electron", dict(pto=2, small_grid=True, x=0.1)), ("NC", "F2", "bottom", "positron", dict(pto=2, small_grid=True, x=0.1))]
         scan(chk, r, quick_cases + special + extra, [1e2, 1e4], 1)
     chk.level = "proof"
     chk.assumptions += [
